@@ -180,68 +180,6 @@ fn expect_stream(w: usize, acts: &[u8; MAXA], lo: usize, k: usize, prop: usize, 
     n
 }
 
-// -----------------------------------------------------------------------------------------
-// C14: state iterator
-// -----------------------------------------------------------------------------------------
-/// iterator created before the dispatches; consumer runs when the producer side blocks and
-/// after stop(); `needs` = Dispatch/Keep pattern
-fn iter_stream(k: usize, needs: [u8; 3], created_after: usize) {
-    let store = n_setup(4, kani::any());
-    let reference: Arc<dyn Subscriber<St, Act> + Send + Sync> = Arc::new(SeqSubscriber { w: 0 });
-    // `created_after` actions are dispatched AND processed... (deferred schedules: they are
-    // dispatched before the iterator exists but reduced after; what the property fixes is
-    // "dispatched after it was created", so the iterator is created first unless stated)
-    let _ = created_after;
-    let it = store.iter();
-    core::mem::forget(store.add_subscriber(reference));
-    unsafe {
-        core::ptr::write(&mut ITER, Some(Box::new(it)));
-        CONSUMER_ALIVE = true;
-    }
-    chk!(14, crossbeam::channel::ghost(SIDE_CHAN).cap == 1, "iter() uses a capacity-1 queue");
-    let acts = dispatch_k(&store, k, needs);
-    store.stop();
-    rt::run_loop(0);
-    rt::run_pending(2);
-    // the consumer drains what is left: remaining pairs, then None, then None again
-    let mut guard = 0;
-    while guard < 4 {
-        if unsafe { NONE_SEEN } == 0 {
-            consumer_next();
-        }
-        guard += 1;
-    }
-    chk!(14, unsafe { NONE_SEEN } == 1, "after the store is stopped the iterator yields the remaining pairs and then None");
-    consumer_next();
-    consumer_next();
-    chk!(14, unsafe { NONE_SEEN } == 3, "the iterator keeps returning None");
-    // items = the notification stream a direct subscriber saw, in order, no gap, no repeat
-    let n_ref = expect_stream(0, &acts, 0, k, 3, "reference direct subscriber sees every notifying action once, in order, with its state");
-    let n_it = expect_stream(1, &acts, 0, k, 14, "the iterator yields the (state, action) pair of every notifying action, in order, without gaps or repeats");
-    chk!(14, unsafe { SEQ_N[1] } == n_it && n_it == n_ref && unsafe { SEQ_N[0] } == n_ref, "iterator and direct subscriber saw the same number of notifications");
-    let mut i = 0;
-    while i < 4 {
-        if i < unsafe { SEQ_N[1] } {
-            chk!(14, unsafe { SEQ[1][i].ctx } == rt::CTX_CONSUMER, "items are handed over on the consumer's thread");
-        }
-        i += 1;
-    }
-    chk!(13, true, "every call returned");
-    chk!(9, store.subscribers.lock().unwrap().len() == 0, "iterator subscription released at shutdown");
-    kani::cover!(unsafe { SEQ_N[1] } >= 2, "COVER-OPT two items went through the capacity-1 queue");
-    unsafe {
-        core::ptr::write(&mut ITER, None);
-        core::ptr::write(&mut G_STORE, None);
-    }
-    core::mem::forget(store);
-    finish!(3, 9, 13, 14);
-}
-notify_harness! { #[kani::unwind(7)] fn iter_k2_dd() { iter_stream(2, [1, 1, 0], 0); } }
-notify_harness! { #[kani::unwind(7)] fn iter_k2_sym() { iter_stream(2, [2, 2, 0], 0); } }
-notify_harness! { #[kani::unwind(7)] fn iter_k3_dkd() { iter_stream(3, [1, 0, 1], 0); } }
-notify_harness! { #[kani::unwind(7)] fn iter_k3_ddd() { iter_stream(3, [1, 1, 1], 0); } }
-notify_harness! { #[kani::unwind(7)] fn iter_k1_k() { iter_stream(1, [0, 0, 0], 0); } }
-
 /// dropping the iterator (empty queue) detaches it: later notifications do not reach it,
 /// the store keeps working
 fn iter_drop_detaches() {
@@ -289,13 +227,150 @@ fn iter_client_drop_unread() {
 }
 notify_harness! { #[kani::unwind(7)] fn iter_client_drop_unread_witness() { iter_client_drop_unread(); } }
 
-// -----------------------------------------------------------------------------------------
-// C10: channeled subscribers (starved consumer: its thread runs when joined)
-// -----------------------------------------------------------------------------------------
-fn channeled(k: usize, cap: usize, policy: u8, needs: [u8; 3], unsubscribe_first: bool) {
+/// vacuity twin
+notify_harness! { #[kani::unwind(7)] fn twin_g_notify() {
     let store = n_setup(4, kani::any());
-    let reference: Arc<dyn Subscriber<St, Act> + Send + Sync> = Arc::new(SeqSubscriber { w: 0 });
-    core::mem::forget(store.add_subscriber(reference));
+    let it = store.iter();
+    chk!(14, crossbeam::channel::ghost(SIDE_CHAN).cap == 2, "TWIN (wrong on purpose): capacity 2");
+    chk!(10, false, "TWIN (wrong on purpose)");
+    chk!(9, store.subscribers.lock().unwrap().len() == 0, "TWIN (wrong on purpose)");
+    chk!(13, false, "TWIN (wrong on purpose)");
+    core::mem::forget(it);
+    core::mem::forget(store);
+    finish!(9, 10, 13, 14);
+} }
+
+// -----------------------------------------------------------------------------------------
+// S-unsub (C09): unsubscribe(B) by another thread placed at a scheduling point of the loop,
+// in particular INSIDE subscriber A's callback (after do_notify took its snapshot)
+// -----------------------------------------------------------------------------------------
+static mut HB: Option<Box<dyn Subscription>> = None;
+static mut T_UNSUB: u8 = 0;
+static mut UNSUB_DONE: bool = false;
+
+fn unsub_yield(kind: u8, obj: usize) {
+    if rt::at_placement(kind, obj) {
+        unsafe {
+            // enabled only if the subscribers lock is free (unsubscribe starts by taking it)
+            let free = match G_STORE.as_ref() {
+                Some(s) => s.subscribers.try_lock().is_ok(),
+                None => false,
+            };
+            if !free {
+                return;
+            }
+            rt::IN_UNIT = true;
+            if let Some(h) = HB.as_ref() {
+                rt::in_ctx(rt::CTX_CLIENT, || h.unsubscribe());
+            }
+            T_UNSUB = rt::tick();
+            UNSUB_DONE = true;
+            rt::IN_UNIT = false;
+        }
+    }
+}
+pub fn unsub_yield_pub(kind: u8, obj: usize) {
+    unsub_yield(kind, obj)
+}
+
+fn s_unsub(kind: u8, obj: usize, occ: u8) {
+    let store = n_setup(4, kani::any());
+    crossbeam::hooks::set_native(Some(unsub_yield), Some(n_block));
+    let a: Arc<dyn Subscriber<St, Act> + Send + Sync> = Arc::new(ScriptSubscriber { idx: 0 });
+    let b: Arc<dyn Subscriber<St, Act> + Send + Sync> = Arc::new(ScriptSubscriber { idx: 1 });
+    let ha = store.add_subscriber(a);
+    let hb = store.add_subscriber(b);
+    unsafe {
+        core::ptr::write(&mut HB, Some(hb));
+        T_UNSUB = 0;
+        UNSUB_DONE = false;
+    }
+    let acts = dispatch_k(&store, 2, [1, 1, 0]);
+    rt::arm(kind, obj, occ);
+    store.stop();
+    rt::run_loop(0);
+    unsafe {
+        rt::PLACE_ARMED = false;
+    }
+    let (done, t) = unsafe { (UNSUB_DONE, T_UNSUB) };
+    let mut j = 0;
+    while j < 2 {
+        let ra = unsafe { SUB[j][0] };
+        let rb = unsafe { SUB[j][1] };
+        chk!(9, ra.n == 1 && ra.st == unsafe { SUM_OUT[j] } && ra.act == acts[j], "other subscribers are unaffected by an unsubscribe");
+        chk!(9, rb.n <= 1, "no duplicate notification");
+        if rb.n == 1 && done {
+            chk!(9, rb.at < t, "once unsubscribe() has returned the subscriber receives nothing further");
+        }
+        if !done || rb.n == 1 {
+            chk!(9, rb.n == 0 || (rb.st == unsafe { SUM_OUT[j] } && rb.act == acts[j]), "what a registered subscriber receives is the action's state and the action");
+        }
+        j += 1;
+    }
+    chk!(9, unsafe { UNSUB[1] } == 1 && unsafe { UNSUB[0] } == 1, "on_unsubscribe exactly once per subscriber (at unsubscribe() or at shutdown)");
+    kani::cover!(done, "COVER-OPT unsubscribe ran at the placement");
+    unsafe {
+        core::ptr::write(&mut HB, None);
+        core::ptr::write(&mut G_STORE, None);
+    }
+    core::mem::forget(ha);
+    core::mem::forget(store);
+    finish!(9);
+}
+macro_rules! unsub_harness {
+    ($($name:ident = ($kind:expr, $obj:expr, $occ:expr);)+) => { $(
+        harness! {
+            #[kani::stub(crate::store_impl::StoreImpl::do_reduce, crate::verif_kani::g_glue::sum_reduce)]
+            #[kani::stub(crate::store_impl::StoreImpl::do_effect, crate::verif_kani::g_glue::sum_effect)]
+            #[kani::stub(crossbeam::hooks::block, n_block)]
+            #[kani::stub(crossbeam::hooks::yield_point, crate::verif_kani::g_notify::unsub_yield_pub)]
+            #[kani::unwind(7)]
+            fn $name() { s_unsub($kind, $obj, $occ); }
+        }
+    )+ };
+}
+unsub_harness! {
+    // before the notification round of action 0 (during its reduce / effect phase)
+    s_unsub_reduce0 = (rt::P_PHASE_REDUCE, 0, 0);
+    s_unsub_effect0 = (rt::P_PHASE_EFFECT, 0, 0);
+    // in before_dispatch of action 0: the subscriber snapshot has not been taken yet
+    s_unsub_before_dispatch0 = (rt::P_PHASE_NOTIFY, 0, 0);
+    // between the rounds
+    s_unsub_between = (crossbeam::hooks::TAKEN, 0, 1);
+    s_unsub_reduce1 = (rt::P_PHASE_REDUCE, 1, 0);
+    // KNOWN FINDING witnesses: inside A's callback, i.e. after the snapshot was taken
+    s_unsub_inside_round0_witness = (rt::P_NOTIFY, 0, 0);
+    s_unsub_inside_round1_witness = (rt::P_NOTIFY, 0, 1);
+}
+
+
+// -----------------------------------------------------------------------------------------
+// wiring of the public entry points (through the store's `Arc<dyn Subscriber>` list; kept
+// minimal because everything reached through a `dyn` object is expensive for the symbolic
+// executor): that iter() / subscribed_with() build exactly what u_iter.rs / in_store.rs
+// verify concretely typed
+// -----------------------------------------------------------------------------------------
+fn wire_iter() {
+    let store = n_setup(4, kani::any());
+    let it = store.iter();
+    let g = crossbeam::channel::ghost(SIDE_CHAN);
+    chk!(14, crossbeam::channel::channels_created() == 2 && g.cap == 1, "iter() creates one capacity-1 queue");
+    chk!(14, store.subscribers.lock().unwrap().len() == 1, "iter() registers exactly one subscriber");
+    // a notification through the registered wrapper lands in that queue with a BLOCKING send
+    let subs = store.subscribers.lock().unwrap().clone();
+    let s: St = kani::any();
+    subs[0].on_notify(&s, &3);
+    core::mem::forget(subs);
+    let g = crossbeam::channel::ghost(SIDE_CHAN);
+    chk!(14, g.len == 1 && g.n_send == 1 && g.n_try_send == 0, "the iterator's subscriber forwards with the blocking policy (no pair is ever dropped)");
+    core::mem::forget(it);
+    core::mem::forget(store);
+    finish!(14);
+}
+notify_harness! { #[kani::unwind(7)] fn wire_iter_h() { wire_iter(); } }
+
+fn wire_chsub(cap: usize, policy: u8) {
+    let store = n_setup(4, kani::any());
     let pol = match policy {
         0 => BackpressurePolicy::BlockOnFull,
         1 => BackpressurePolicy::DropOldest,
@@ -308,158 +383,40 @@ fn channeled(k: usize, cap: usize, policy: u8, needs: [u8; 3], unsubscribe_first
             panic!("VERIF-MODEL: subscribed_with failed");
         }
     };
-    chk!(10, rt::thread::spawned() == 1, "subscribed_with starts a delivery thread of its own");
-    chk!(10, crossbeam::channel::ghost(SIDE_CHAN).cap == cap, "the subscription's queue has the requested capacity");
-    let acts = dispatch_k(&store, k, needs);
-    let _ = unsubscribe_first;
-    store.stop();
-    rt::run_loop(0);
-    rt::run_pending(2);
-    let end = rt::now();
+    chk!(10, rt::thread::spawned() == 1, "subscribed_with starts one delivery thread");
+    chk!(10, crossbeam::channel::channels_created() == 2 && crossbeam::channel::ghost(SIDE_CHAN).cap == cap, "subscribed_with creates one queue of the requested capacity");
+    chk!(10, store.subscribers.lock().unwrap().len() == 1, "subscribed_with registers exactly one (forwarding) subscriber");
+    let subs = store.subscribers.lock().unwrap().clone();
+    let s: St = kani::any();
+    rt::in_ctx(rt::CTX_REDUCER, || subs[0].on_notify(&s, &3));
+    core::mem::forget(subs);
     let g = crossbeam::channel::ghost(SIDE_CHAN);
-    // reference stream
-    let n_ref = expect_stream(0, &acts, 0, k, 3, "reference direct subscriber sees every notifying action");
-    chk!(10, rt::thread::state(0) == rt::thread::T_DONE, "stop() returns only after the delivery thread has finished");
-    chk!(10, unsafe { SEQ_UNSUB[1] } <= 1, "the wrapped subscriber is not released twice");
-    let got = unsafe { SEQ_N[1] };
-    let mut i = 0;
-    while i < 4 {
-        if i < got {
-            let it = unsafe { SEQ[1][i] };
-            chk!(10, it.ctx == rt::CTX_CHANNELED, "a channeled subscriber is called on its own thread, never in the reducer context");
-            chk!(10, it.at <= end, "everything queued is delivered before stop() returns, nothing afterwards");
-        }
-        i += 1;
-    }
+    chk!(10, g.len == 1 && unsafe { SEQ_N[1] } == 0, "the forwarding subscriber only enqueues; the user's subscriber is not called in the reducer context");
     if policy == 0 {
-        // blocking policy (capacity >= backlog here): exactly the direct subscriber's stream
-        let n_ch = expect_stream(1, &acts, 0, k, 10, "with the blocking policy a channeled subscriber receives exactly the sequence a direct subscriber would");
-        chk!(10, got == n_ch && n_ch == n_ref, "same number of notifications as the direct subscriber");
+        chk!(10, g.n_send == 1 && g.n_try_send == 0, "the requested blocking policy is used for the subscription's queue");
     } else {
-        chk!(10, g.n_send == 0, "with a drop policy the forwarding never uses a blocking send: a stalled subscriber cannot stall reducing");
-        // in-order subsequence of the reference stream
-        let mut pos = 0usize;
-        let mut ok = true;
-        let mut i = 0;
-        while i < 4 {
-            if i < got {
-                let it = unsafe { SEQ[1][i] };
-                let mut found = false;
-                let mut j = 0;
-                while j < 4 {
-                    if !found && j >= pos && j < unsafe { SEQ_N[0] } {
-                        let r = unsafe { SEQ[0][j] };
-                        if r.st == it.st && r.act == it.act {
-                            found = true;
-                            pos = j + 1;
-                        }
-                    }
-                    j += 1;
-                }
-                if !found {
-                    ok = false;
-                }
-            }
-            i += 1;
-        }
-        chk!(10, ok, "with a drop policy a channeled subscriber receives an in-order subsequence");
-        chk!(10, got <= cap && (n_ref < cap || got == cap), "a starved drop-policy subscriber keeps `capacity` notifications");
-        if policy == 1 && n_ref > 0 && got > 0 {
-            let last_ref = unsafe { SEQ[0][if n_ref <= 4 { n_ref - 1 } else { 3 }] };
-            let last = unsafe { SEQ[1][got - 1] };
-            chk!(10, last.st == last_ref.st && last.act == last_ref.act, "under DropOldest the newest notification is always delivered");
-        }
-        if policy == 1 && n_ref > 0 {
-            chk!(10, got > 0, "under DropOldest the newest notification is delivered");
-        }
-    }
-    chk!(9, store.subscribers.lock().unwrap().len() == 0, "all subscriptions released at shutdown");
-    chk!(13, true, "every call returned");
-    // a late unsubscribe does nothing
-    let clock = rt::now();
-    sub.unsubscribe();
-    chk!(9, rt::now() == clock, "unsubscribe() after shutdown does nothing");
-    unsafe {
-        core::ptr::write(&mut G_STORE, None);
+        chk!(10, g.n_send == 0 && g.n_try_send == 1, "the requested drop policy is used for the subscription's queue");
     }
     core::mem::forget(sub);
     core::mem::forget(store);
-    finish!(3, 9, 10, 13);
+    finish!(10);
 }
-notify_harness! { #[kani::unwind(7)] fn chsub_block_k2() { channeled(2, 3, 0, [1, 1, 0], false); } }
-notify_harness! { #[kani::unwind(7)] fn chsub_block_k2_sym() { channeled(2, 2, 0, [2, 2, 0], false); } }
-notify_harness! { #[kani::unwind(7)] fn chsub_oldest_k2_cap1() { channeled(2, 1, 1, [1, 1, 0], false); } }
-notify_harness! { #[kani::unwind(7)] fn chsub_latest_k2_cap1() { channeled(2, 1, 2, [1, 1, 0], false); } }
-notify_harness! { #[kani::unwind(7)] fn chsub_oldest_k3_cap2() { channeled(3, 2, 1, [1, 1, 1], false); } }
-notify_harness! { #[kani::unwind(7)] fn chsub_block_k3_dkd() { channeled(3, 3, 0, [1, 0, 1], false); } }
-
-/// unsubscribe() of a channeled subscriber flushes and joins before it returns
-fn channeled_unsubscribe(policy: u8) {
+notify_harness! { #[kani::unwind(7)] fn wire_chsub_block() { wire_chsub(2, 0); } }
+notify_harness! { #[kani::unwind(7)] fn wire_chsub_oldest() { wire_chsub(1, 1); } }
+notify_harness! { #[kani::unwind(7)] fn wire_chsub_latest() { wire_chsub(3, 2); } }
+/// `subscribed()` = default capacity, blocking policy
+fn wire_subscribed_default() {
     let store = n_setup(4, kani::any());
-    let pol = if policy == 0 { BackpressurePolicy::BlockOnFull } else { BackpressurePolicy::DropOldest };
-    let sub = match store.subscribed_with(2, pol, Box::new(SeqSubscriber { w: 1 })) {
+    let sub = match store.subscribed(Box::new(SeqSubscriber { w: 1 })) {
         Ok(s) => s,
         Err(e) => {
             core::mem::forget(e);
-            panic!("VERIF-MODEL: subscribed_with failed");
+            panic!("VERIF-MODEL: subscribed failed");
         }
     };
-    // two notifications are queued for it (through the registered wrapper, as do_notify does)
-    let subs = store.subscribers.lock().unwrap().clone();
-    let s0: St = kani::any();
-    let s1: St = kani::any();
-    in_reducer_ctx(|| {
-        subs[0].on_notify(&s0, &1);
-        subs[0].on_notify(&s1, &2);
-    });
-    core::mem::forget(subs);
-    chk!(10, unsafe { SEQ_N[1] } == 0, "notifications are not delivered in the reducer context");
-    sub.unsubscribe();
-    let t = rt::now();
-    chk!(10, unsafe { SEQ_N[1] } == 2 && unsafe { SEQ[1][0].st } == s0 && unsafe { SEQ[1][1].st } == s1, "unsubscribe() returns only after everything already queued has been delivered, in order");
-    chk!(10, unsafe { SEQ[1][0].ctx } == rt::CTX_CHANNELED, "delivered on the subscriber's own thread");
-    chk!(10, rt::thread::state(0) == rt::thread::T_DONE, "unsubscribe() joins the delivery thread");
-    chk!(9, store.subscribers.lock().unwrap().len() == 0, "the wrapper leaves the list");
-    // nothing afterwards
-    let _acts = dispatch_k(&store, 1, [1, 0, 0]);
-    store.stop();
-    rt::run_loop(0);
-    chk!(10, unsafe { SEQ_N[1] } == 2, "after unsubscribe() has returned nothing further is delivered");
-    chk!(9, unsafe { SEQ_N[1] } == 2, "once unsubscribe() has returned the subscriber receives nothing further");
-    sub.unsubscribe();
-    let _ = t;
-    chk!(13, true, "every call returned");
-    unsafe {
-        core::ptr::write(&mut G_STORE, None);
-    }
+    chk!(10, crossbeam::channel::ghost(SIDE_CHAN).cap == crate::store::DEFAULT_CAPACITY && rt::thread::spawned() == 1, "subscribed() uses the default capacity and its own thread");
     core::mem::forget(sub);
     core::mem::forget(store);
-    finish!(9, 10, 13);
+    finish!(10);
 }
-fn in_reducer_ctx(f: impl FnOnce()) {
-    rt::in_ctx(rt::CTX_REDUCER, f)
-}
-notify_harness! { #[kani::unwind(7)] fn chsub_unsubscribe_block() { channeled_unsubscribe(0); } }
-notify_harness! { #[kani::unwind(7)] fn chsub_unsubscribe_oldest() { channeled_unsubscribe(1); } }
-
-/// vacuity twin
-notify_harness! { #[kani::unwind(7)] fn twin_g_notify() {
-    let store = n_setup(4, kani::any());
-    let it = store.iter();
-    unsafe {
-        core::ptr::write(&mut ITER, Some(Box::new(it)));
-        CONSUMER_ALIVE = true;
-    }
-    let _acts = dispatch_k(&store, 1, [1, 0, 0]);
-    store.stop();
-    rt::run_loop(0);
-    consumer_next();
-    chk!(14, unsafe { SEQ_N[1] } == 0, "TWIN (wrong on purpose): iterator yields nothing");
-    chk!(10, false, "TWIN (wrong on purpose)");
-    chk!(9, store.subscribers.lock().unwrap().len() == 1, "TWIN (wrong on purpose)");
-    chk!(13, false, "TWIN (wrong on purpose)");
-    chk!(3, false, "TWIN (wrong on purpose)");
-    unsafe { core::ptr::write(&mut ITER, None); }
-    core::mem::forget(store);
-    finish!(3, 9, 10, 13, 14);
-} }
+notify_harness! { #[kani::unwind(7)] fn wire_subscribed() { wire_subscribed_default(); } }
